@@ -479,6 +479,9 @@ theorem step_inv (s s' : State) (op : Op) (hinv : Inv s) (h : step s op = some s
         simp only [baseInos, addSpace, hb, sectorsOf_blocks'] at *; omega
       | some t =>
         obtain ⟨id, len, n⟩ := t
+        simp only at h
+        split at h
+        case isFalse => simp at h
         simp only [Option.some.injEq] at h; subst h
         refine ⟨?_, Ok_of_fields s1 _ hok1 rfl rfl rfl⟩
         have hli := linkIno_sectors id len n s1.inos
@@ -538,6 +541,116 @@ theorem dirs_covered (s s' : State) (ops : List Op) (hinv : Inv s) (h : run s op
 /-- … and both path-table reservations are exactly two extents per started 4096 bytes of records -/
 theorem path_tables_exact (s s' : State) (ops : List Op) (hinv : Inv s) (h : run s ops = some s') :
     PathTable.Inv s'.pt0 ∧ PathTable.Inv s'.pt1 := (run_inv s s' ops hinv h).2.2
+
+/-! ### contents exist exactly as long as they are named (C07) -/
+
+theorem linkIno_named (id len n : Nat) (is : List Ino) (hn : 0 < n) (h : ∀ i ∈ is, 0 < i.links) :
+    ∀ i ∈ (linkIno id len n is).1, 0 < i.links := by
+  induction is with
+  | nil => intro i hi; simp [linkIno] at hi; subst hi; exact hn
+  | cons j js ih =>
+    simp only [linkIno]
+    split
+    · intro i hi
+      simp only [List.mem_cons] at hi
+      rcases hi with rfl | hi
+      · simp; have := h j (by simp); omega
+      · exact h i (by simp [hi])
+    · intro i hi
+      simp only [List.mem_cons] at hi
+      rcases hi with rfl | hi
+      · exact h _ (by simp)
+      · exact ih (fun x hx => h x (by simp [hx])) i hi
+
+theorem unlinkIno_named (id n : Nat) (is : List Ino) (r : List Ino × Nat) (hu : unlinkIno id n is = some r)
+    (h : ∀ i ∈ is, 0 < i.links) : ∀ i ∈ r.1, 0 < i.links := by
+  induction is generalizing r with
+  | nil => simp [unlinkIno] at hu
+  | cons j js ih =>
+    simp only [unlinkIno] at hu
+    split at hu
+    · split at hu
+      · simp only [Option.some.injEq] at hu; subst hu
+        intro i hi
+        simp only [List.mem_cons] at hi
+        rcases hi with rfl | hi
+        · simp; omega
+        · exact h i (by simp [hi])
+      · split at hu
+        · simp only [Option.some.injEq] at hu; subst hu
+          exact fun i hi => h i (by simp [hi])
+        · simp at hu
+    · cases hx : unlinkIno id n js with
+      | none => simp [hx] at hu
+      | some x =>
+        simp [hx] at hu; subst hu
+        intro i hi
+        simp only [List.mem_cons] at hi
+        rcases hi with rfl | hi
+        · exact h _ (by simp)
+        · exact ih x hx (fun y hy => h y (by simp [hy])) i hi
+
+theorem step_named (s s' : State) (op : Op) (hok : Ok s) (hn : Named s) (h : step s op = some s') : Named s' := by
+  cases op with
+  | add parts ino =>
+    simp only [step] at h
+    cases hp : addParts s parts with
+    | none => simp [hp] at h
+    | some x =>
+      obtain ⟨s1, b⟩ := x
+      simp only [hp] at h
+      obtain ⟨k, _, _, _, hi1, _⟩ := addParts_exact s s1 parts b hok hp
+      cases ino with
+      | none => simp only [Option.some.injEq] at h; subst h; unfold Named; simp only; rw [hi1]; exact hn
+      | some t =>
+        obtain ⟨id, len, n⟩ := t
+        simp only at h
+        split at h
+        case isFalse => simp at h
+        rename_i hpos
+        simp only [Option.some.injEq] at h; subst h
+        unfold Named; simp only
+        exact linkIno_named id len n s1.inos hpos (by rw [hi1]; exact hn)
+  | rm parts ino =>
+    simp only [step] at h
+    cases hp : rmParts s parts with
+    | none => simp [hp] at h
+    | some x =>
+      obtain ⟨s1, b⟩ := x
+      simp only [hp] at h
+      obtain ⟨k, _, _, _, hi1, _⟩ := rmParts_exact s s1 parts b hok hp
+      cases ino with
+      | none => simp only [Option.some.injEq] at h; subst h; unfold Named; simp only; rw [hi1]; exact hn
+      | some t =>
+        obtain ⟨id, n⟩ := t
+        simp only at h
+        cases hu : unlinkIno id n s1.inos with
+        | none => simp [hu] at h
+        | some r =>
+          obtain ⟨is, lb⟩ := r
+          simp only [hu, Option.some.injEq] at h; subst h
+          unfold Named; simp only
+          exact unlinkIno_named id n s1.inos (is, lb) hu (by rw [hi1]; exact hn)
+
+/-- **released at zero**: after any history every stored content still has a name — the last `unlink` removed it from the
+store and gave its sectors back (`space_exact` counts exactly the stored contents) -/
+theorem contents_named (s s' : State) (ops : List Op) (hinv : Inv s) (hn : Named s) (h : run s ops = some s') :
+    Named s' := by
+  induction ops generalizing s with
+  | nil => simp only [run, Option.some.injEq] at h; subst h; exact hn
+  | cons op ops ih =>
+    simp only [run] at h
+    cases hs : step s op with
+    | none => simp [hs] at h
+    | some s1 =>
+      simp only [hs] at h
+      exact ih s1 (step_inv s s1 op hinv hs) (step_named s s1 op hinv.2 hn hs) h
+
+/-- removing the last name of a content releases exactly its sectors; removing one of several releases nothing -/
+theorem unlink_releases_iff (id n : Nat) (i : Ino) (is : List Ino) (hid : i.id = id) :
+    unlinkIno id n (i :: is) = (if n < i.links then some ({ i with links := i.links - n } :: is, 0)
+                                else if n = i.links then some (is, i.len) else none) := by
+  simp [unlinkIno, hid]
 
 /-! ### the sequential layout of a reachable state -/
 
